@@ -504,7 +504,7 @@ func main() {
 	} else {
 		tp := tierParams{perDir: 12, modOwn: 50, modCross: 400, chunk: 300, modFields: 1, maxFields: 400, fieldPats: "zm", fieldsUnit: 1024}
 		if cfg.Thorough() {
-			tp = tierParams{perDir: 60, modOwn: 6, modCross: 40, fullBelow: 400, chunk: 400, modFields: 1, maxFields: 2000, pairSeeds: true, fieldPats: "zo1ms", fieldsUnit: 2048}
+			tp = tierParams{perDir: 60, modOwn: 6, modCross: 40, fullBelow: 400, chunk: 400, modFields: 1, maxFields: 2000, pairSeeds: true, fieldPats: "zo1ms", fieldsUnit: 1024}
 		}
 		if v, err := strconv.Atoi(os.Getenv("VERIF_C06_MOD")); err == nil && v > 0 {
 			tp.modOwn = v
